@@ -183,6 +183,29 @@ func runC18(w *W) {
 			skipCuts[i] = 1 + t.Intn(len(d.thrift)-1, "skip.cut.at")
 		}
 	}
+	// root-level scalars: the document is the value itself (descriptor of a scalar type), and it is a
+	// prefix of a larger buffer whose next bytes read like a continuation of the token - every
+	// implementation has to honour the length of the document
+	type rootScalar struct {
+		f    *TField
+		js   []byte
+		tail string
+	}
+	var rootScalars []rootScalar
+	for _, f := range sch.Root.St.Fields {
+		switch f.T.Kind {
+		case tI64, tI32, tI16, tBYTE, tDOUBLE, tBOOL:
+		default:
+			continue
+		}
+		if len(rootScalars) >= 3 || !t.Chance(1, 2, "rootscalar.use") {
+			continue
+		}
+		v := (&vgen{t: t, o: vgenOpts{MaxStr: 40, FiniteOnly: true}}).value(f.T, 0)
+		js := (&jsonStyle{t: t, Num: t.Intn(2, "rootscalar.num")}).render(v)
+		tails := []string{"", ".5", "e3", "E+2", "0", "9", "\"", ".", "e", "-1", "}", "x", " 1", "true"}
+		rootScalars = append(rootScalars, rootScalar{f, js, tails[t.Intn(len(tails), "rootscalar.tail")]})
+	}
 	// ---- from here on the library runs
 	desc := parseThrift(w, sch, po)
 	cv := j2t.NewBinaryConv(opts)
@@ -233,6 +256,33 @@ func runC18(w *W) {
 			} else {
 				w.cmpMix(ref)
 			}
+		}
+	}
+
+	for ri, rs := range rootScalars {
+		whole := w.AllocData(append(append([]byte{}, rs.js...), rs.tail...), simrt.PlaceHeap)
+		doc := whole.B[:len(rs.js)]
+		fdesc := desc.Struct().FieldById(thrift.FieldID(rs.f.ID)).Type()
+		var ref []byte
+		refErr := false
+		for k, fl := range fls {
+			name := c18Use(fl)
+			w.NextOp(fmt.Sprintf("j2t root scalar %d (%s %q followed by %q) under %s", ri, typeName(rs.f.T), rs.js, rs.tail, name))
+			out, err := cv.Do(ctx, fdesc, doc)
+			if k == 0 {
+				ref, refErr = out, err != nil
+				continue
+			}
+			if (err != nil) != refErr || !bytes.Equal(out, ref) {
+				w.Failf("flavours-disagree", map[string]string{"flavour": name, "root_scalar": "true"}, "%s and %s disagree on the root-level %s %q (followed by %q in the caller's buffer)\n%s: err=%v %x\n%s: err=%v %x", flavourNames[fls[0]], name, typeName(rs.f.T), rs.js, rs.tail, flavourNames[fls[0]], refErr, ref, name, err, out)
+			}
+		}
+		w.Logf("   root scalar %d %s %q + %q -> err=%v out=%x", ri, typeName(rs.f.T), rs.js, rs.tail, refErr, clipb(ref, 40))
+		w.Count("root_scalar_docs")
+		if refErr {
+			w.cmpMix([]byte("rejected"))
+		} else {
+			w.cmpMix(ref)
 		}
 	}
 
